@@ -17,7 +17,7 @@ enum Node {
 
 type Tree = BTreeMap<String, Node>;
 
-const FILES: &[&str] = &["a.txt", "b c.dat", "é.bin", "d1/a.txt", "d1/x.txt", "d 2/n.txt", "dé/sub/deep.txt", "d1/sub/y.dat", "new/made/f.txt", "a.txt/z.txt", "d1/x.txt/w.txt", "A.TXT", "Notes.Txt", "d1/A.txt"];
+const FILES: &[&str] = &["a.txt", "b c.dat", "é.bin", "d1/a.txt", "d1/x.txt", "d 2/n.txt", "dé/sub/deep.txt", "d1/sub/y.dat", "new/made/f.txt", "a.txt/z.txt", "d1/x.txt/w.txt", "A.TXT", "Notes.Txt", "d1/A.txt", "a.txt.tmp", "d1/a.txt.tmp", "a.txt~"];
 const DIRS: &[&str] = &["d1", "d 2", "dé", "dé/sub", "d1/sub", "e1", "e1/e2", "new"];
 
 fn parent(p: &str) -> Option<&str> {
